@@ -1,5 +1,9 @@
 """C17 - record headers, fixed bodies, generated replies: case generator and oracle."""
 from fvgen import case, parse_case, parse_out
+import importlib.util, os
+_spec7 = importlib.util.spec_from_file_location("c07", os.path.join(os.path.dirname(__file__), "C07.py"))
+C07 = importlib.util.module_from_spec(_spec7)
+_spec7.loader.exec_module(C07)
 
 RULE = ("hdr_decode over all 2^16 (version,type) pairs (other fields sampled) + every field exhaustively one at a time in thorough; "
         "hdr_encode over all 11 types x boundary ids/lengths; pad over all 65536 content lengths; begin_decode over all 2^16 roles "
@@ -17,7 +21,7 @@ def hdr(t, rid, cl, pl, v=1, rsv=0):
     return [v, t, rid >> 8, rid & 255, cl >> 8, cl & 255, pl, rsv]
 
 
-def gen_cases(rng, tier):
+def _gen_cases_codec(rng, tier):
     quick = tier == "quick"
     yield case("consts"), ["consts"]
     for v in range(256):
@@ -74,7 +78,38 @@ def gen_cases(rng, tier):
         yield case("gvr", [vs], [5], []), ["gvr", "extra-bits"]
 
 
+def epilogue_cases(rng, tier):
+    """the end-of-request sequence - one empty record per output stream, then the EndRequest for the status - through the only public
+    path to it (Request::close at the end of Token::run): every kind of exit status (Complete with several codes, Overloaded,
+    UnknownRole, ...), roles with one and two input streams, with and without stderr output before the return"""
+    import conngen
+    from conngen import conn_case, minimal_preamble, record, flat, STDIN, DATA, STDOUT, STDERR
+    for d in (0, 0, 2, 3):
+        for role in (1, 2, 3):
+            for wrote in (0, 1, 2):
+                rid = rng.choice([1, 7, 65535])
+                recs = minimal_preamble(rid, role, flags=rng.choice([0, 1]))
+                if role in (1, 3):
+                    recs += [record(STDIN, rid, [1, 2, 3], 0), record(STDIN, rid, [], 0)]
+                if role == 3:
+                    recs += [record(DATA, rid, [4], 0), record(DATA, rid, [], 0)]
+                h = [("readall",)] + ([("set", DATA), ("readall",)] if role == 3 else []) + [("writeable",)]
+                if wrote >= 1:
+                    h.append(("write", STDERR, [33] * 5))
+                if wrote == 2:
+                    h.append(("write", STDOUT, [34] * 9))
+                h.append(("ret", d, rng.choice([0, 7, 2 ** 32 - 1])))
+                yield conn_case(rng.choice([64, 8192]), 1, [(0, 0, flat(recs))], [h], [], [], rng.choice([0, 1])), ["epilogue-status"]
+
+
+def gen_cases(rng, tier):
+    yield from _gen_cases_codec(rng, tier)
+    yield from epilogue_cases(rng, tier)
+
+
 def nontrivial(line, tags):
+    if line.startswith("conn_run"):
+        return True
     mode, a = parse_case(line)
     if mode == "hdr_decode":
         return not (a[0][0] == 1 and 1 <= a[0][1] <= 11)
@@ -83,7 +118,7 @@ def nontrivial(line, tags):
 
 def min_classes(tier):
     return {"vt-sweep": 4000 if tier == "quick" else 65536, "pad": 1000, "role-sweep": 600, "flag-sweep": 256,
-            "status-sweep": 1280, "unk": 256, "gvr": 8 * 60, "consts": 1}
+            "status-sweep": 1280, "unk": 256, "gvr": 8 * 60, "consts": 1, "epilogue-status": 36}
 
 
 def dec(n):
@@ -101,6 +136,8 @@ def gvr_expected(vs, m):
 
 
 def oracle(line, impl_line):
+    if line.startswith("conn_run"):
+        return C07.oracle(line, impl_line)          # class epilogue-status: the request must be answered by the exact end-of-request sequence
     mode, a = parse_case(line)
     o = parse_out(impl_line)
     if o is None or o == [[18446744073710440504]]:
